@@ -120,24 +120,34 @@ Definition table_of (steps : list (opx * obs)) : list (N * tx) :=
   flat_map (fun so => match fst so with XAdd t _ _ => [(tid t, t)] | _ => [] end) steps.
 
 (* index (from 1) of the first step where the implementation differs from the model; 0 = none *)
+(* Equal fee priorities: container/heap may pop any minimal candidate (map iteration order), the model needs to be told
+   which.  The ids that disappeared are observed per compared step - for an overlapped pair only for the pair as a whole -
+   and an Add can drop two ids (capacity eviction + replacement), so the evaluator SEARCHES: for an Add it tries the
+   whole disappeared list and each single disappeared id as the choice, and a choice is accepted if the rest of the case
+   can be matched with it (backtracking; the lists have at most 2-3 elements).
+   Result: 0 if some assignment of choices matches every compared step, else the index of the first step at which the
+   first assignment fails. *)
+Definition choices (o : opx) (gone : list N) : list (list N) :=
+  match o with
+  | XAdd _ _ _ => match gone with [] => [[]] | _ => gone :: map (fun g => [g]) gone end
+  | _ => [[]]
+  end.
+
 Fixpoint first_diff (c : cfg) (steps : list (opx * obs)) (p : pool) (i : N) : N :=
   match steps with
   | [] => 0
   | (o, b) :: r =>
     if b_hang b || b_panic b then i
-    else (* equal fee priorities: container/heap may pop any minimal candidate; the ids that disappeared do not always say
-            which one was the eviction victim (an Add can drop two), so every single disappeared id is tried as the choice *)
-         let try_ ch := let '(q, rt) := model_op c o ch p in
-                        if Bool.eqb rt (b_ret b) && (b_skip b || snap_eqb (project q) (b_snap b)) then Some (q, rt) else None in
-         let '(p', ret) := match find (fun ch => match try_ ch with Some _ => true | None => false end)
-                                       (b_gone b :: map (fun g => [g]) (b_gone b)) with
-                           | Some ch => model_op c o ch p
-                           | None => model_op c o (b_gone b) p
-                           end in
-         (* a finish must have driven every reorg goroutine to its end (fuel exhaustion is a difference, not a state) *)
-         let done := match o with XFinish _ => is_nil (pending p') | _ => true end in
-         if done && Bool.eqb ret (b_ret b) && (b_skip b || snap_eqb (project p') (b_snap b)) then first_diff c r p' (i + 1) else i
+    else
+      let results := map (fun ch =>
+          let '(p', ret) := model_op c o ch p in
+          (* a finish must have driven every reorg goroutine to its end (fuel exhaustion is a difference, not a state) *)
+          let done := match o with XFinish _ => is_nil (pending p') | _ => true end in
+          if done && Bool.eqb ret (b_ret b) && (b_skip b || snap_eqb (project p') (b_snap b))
+          then first_diff c r p' (i + 1) else i) (choices o (b_gone b)) in
+      if existsb (N.eqb 0) results then 0 else hd i results
   end.
+
 (* transition clause: a newcomer that is pooled after its Add while a transaction of the same sender and nonce was pooled
    before it pays at least that one's fee plus the configured difference, and that one is gone (state-based replacement rule) *)
 Definition repl_ok (c : cfg) (table : list (N * tx)) (prev_all : list N) (o : opx) (cur_all : list N) : bool :=
